@@ -1044,10 +1044,12 @@ class mru_cache(object):
                         cache.clear() 
                         queue.clear()
                     else: # purge most recently used cache entry
-                        k = queue_pop()
+                        if queue: k = queue_pop()
+                        else: k = key # no tracked entries (e.g. after load)
                         if cache.archived(): cache.dump(k)
                         try: del cache[k]
                         except KeyError: pass #FIXME: possible none purged
+                        if k is key: return result # don't track purged key
             except: #TypeError: # unhashable key
                 result = user_function(*args, **kwds)
                 stats[MISS] += 1
